@@ -1744,6 +1744,9 @@ class Exploration:
         return d
 
 
+DEADLINE = None        # absolute time after which explorations stop (set per check run)
+
+
 def explore(harness, ctx=None, name=None, workers=None, max_paths=2000000,
             wall_limit_s=3600, engine_kw=None, keep_notes=200, keep_failures=50,
             on_result=None):
@@ -1758,6 +1761,16 @@ def explore(harness, ctx=None, name=None, workers=None, max_paths=2000000,
     name = name or getattr(harness, '__name__', 'harness')
     exp = Exploration(name)
     t0 = time.time()
+    if DEADLINE is not None:
+        # budget of the whole check run (set by run_check.py): what is left bounds this exploration;
+        # an exploration cut short is incomplete, i.e. a harness error unless a violation was found
+        left = DEADLINE - t0
+        if left <= 1:
+            exp.complete = False
+            exp.notes.append({'t': 'worker_died', 'v': 'the time budget of the check run was used up before %s started' % name})
+            exp.wall_s = 0.0
+            return exp
+        wall_limit_s = min(wall_limit_s, left)
     workers = workers or int(os.environ.get('VERIF_WORKERS', '0')) or min(16, os.cpu_count() or 1)
     pending = [()]
     total = 0
@@ -1807,6 +1820,8 @@ def explore(harness, ctx=None, name=None, workers=None, max_paths=2000000,
         inflight = []
         first_pids = {p_.pid for p_ in pool._pool}
         last_alive_check = time.time()
+        submitted = {}
+        stuck_after_s = float(os.environ.get('VERIF_TASK_STUCK_S', '900'))
         while pending or inflight:
             if total >= max_paths or time.time() - t0 > wall_limit_s:
                 exp.complete = False
@@ -1819,6 +1834,12 @@ def explore(harness, ctx=None, name=None, workers=None, max_paths=2000000,
                     exp.complete = False
                     exp.notes.append({'t': 'worker_died', 'v': 'a worker process of %s ended abnormally (solver abort?); its paths are lost' % name})
                     break
+                oldest = min((submitted.get(id(ar), last_alive_check) for ar in inflight), default=last_alive_check)
+                if last_alive_check - oldest > stuck_after_s:
+                    # e.g. z3 printing ASSERTION VIOLATION and then never returning
+                    exp.complete = False
+                    exp.notes.append({'t': 'worker_died', 'v': 'a batch of paths of %s has not come back for %d s (solver stuck or aborted); its paths are lost' % (name, stuck_after_s)})
+                    break
             # submit
             while pending and len(inflight) < workers * 2:
                 if len(pending) < workers * 2:
@@ -1829,6 +1850,7 @@ def explore(harness, ctx=None, name=None, workers=None, max_paths=2000000,
                     chunk = [pending.pop() for _ in range(k)]
                     budget = 256
                 inflight.append(pool.apply_async(_worker, ((harness, ctx, chunk, budget, engine_kw),)))
+                submitted[id(inflight[-1])] = time.time()
             # collect
             still = []
             got = False
